@@ -265,8 +265,7 @@ Lemma ih_post_nonrep t r s' : TInv s' -> is_chars t = false ->
   (r = Done \/ r = DoneAckSelfClosing \/ (exists l, r = PEncoding l) \/ (exists k, r = ToRawData k)) -> ih_post t r s'.
 Proof.
   intros I C R. split.
-  - split; [|apply res_ok_nonchars; exact C].
-    destruct R as [->|[->|[[l ->]|[k ->]]]]; exact I.
+  - destruct R as [->|[->|[[l ->]|[k ->]]]]; (split; [exact I | apply res_ok_nonchars; [exact C | exact Logic.I]]).
   - destruct R as [->|[->|[[l ->]|[k ->]]]]; discriminate.
 Qed.
 
@@ -292,7 +291,7 @@ Proof.
     - split; [|discriminate]. pose proof K2 as [I2 S2].
       apply (keeps_set_mode s1); [exact K2 | eapply keeps_late; eassumption | rewrite (st_mode _ _ S2); exact NS1 | reflexivity | reflexivity |].
       intros _. rewrite (st_head _ _ S2). exact Hd.
-    - intro C. exact C. }
+    - apply res_ok_reprocess. }
   assert (Fin : forall r s', is_done r s' -> step_post t r s' /\ (is_reprocess r = true -> In k [9; 13])).
   { intros r s' [Is ->]. split; [apply step_post_done; exact Is | discriminate]. }
   assert (Fin2 : forall r s', TInv s' -> is_chars t = false ->
@@ -301,7 +300,7 @@ Proof.
   { intros r s' Is C R. destruct (ih_post_nonrep t r s' Is C R) as [A B]. split; [exact A|]. intro X.
     destruct R as [->|[->|[[l ->]|[kk ->]]]]; discriminate. }
   arm_cases k Eb.
-  - (* 0 *) apply wp_b_split. split; [split; [exact I1 | intros _; exact Logic.I] | discriminate].
+  - (* 0 *) apply wp_b_split. split; [split; [exact I1 | apply res_ok_split] | discriminate].
   - (* 1 *) eapply wp_mono; [apply armd_append_text; assumption | exact Fin].
   - (* 2 *) eapply wp_mono; [apply armd_append_comment; assumption | exact Fin].
   - (* 3 <html> *) eapply wp_mono; [apply HB; assumption|]. intros r s' [A B]. split; [exact A | rewrite B; discriminate].
